@@ -93,6 +93,7 @@ def seed_globals(case):
 		_torch.manual_seed(s)
 	except ImportError:
 		pass
+	repo.numba_seed(s)
 
 
 def after_fork():
